@@ -107,6 +107,19 @@ def table_worker(task):
                     if y.si != x.si or float(y) != float(x) or y.unit != u2 \
                             or type(y) is not q:
                         bad.append(("as_unit", name, u, u2, v, y.si, x.si))
+                    else:
+                        # unary ops on a re-expressed quantity: SI only
+                        try:
+                            a_, n_ = abs(y), -y
+                            if a_.si != abs(y.si) or n_.si != -(y.si) or \
+                                    a_.unit != u2 or n_.unit != u2 or \
+                                    (y.si < 0 and not a_ == n_) or \
+                                    (y.si >= 0 and not a_ == y):
+                                bad.append(("neg-abs-after-as_unit", name, u,
+                                            u2, v, a_.si, abs(y.si)))
+                        except Exception as ex:  # noqa
+                            bad.append(("neg-abs-after-as_unit-raised", name,
+                                        u, u2, type(ex).__name__))
                 for u2 in pairs_u2:
                     for v2 in (0.0, 1.0, 7):
                         n += 1
@@ -121,6 +134,11 @@ def table_worker(task):
                                 bad.append(("add-sub", name, (v, u), (v2, u2),
                                             (float(a), a.unit),
                                             (xs + ys, u)))
+                            elif abs(s_).si != abs(s_.si) or \
+                                    (-a).si != -(a.si) or abs(s_).unit != u:
+                                bad.append(("neg-abs-after-add-sub", name,
+                                            (v, u), (v2, u2), abs(s_).si,
+                                            abs(s_.si)))
                             for nm, op in (("<", operator.lt),
                                            ("<=", operator.le),
                                            (">", operator.gt),
